@@ -207,12 +207,16 @@ theorem sigmoidFuel_canonical (fuel : Nat) (x r : Flt) (hF : x.sem.WF) (hx : x.C
       · split at h
         · cases h
         · rename_i ex hex
-          have he := expFuel_canonical _ _ _ hF hx hex
           split at h
           · cases h; exact ⟨h1, rfl⟩
           · cases h
-            have := div_canonical ex (ex.add (Flt.one x.sem false)) (he.2 ▸ hF)
-            exact ⟨this.1, this.2.trans he.2⟩
+            exact cast_canonical _ _ hF
+              (div_canonical ex (ex.add (Flt.one (x.sem.increasePrecision 8) false))
+                (by
+                  have hW : (x.sem.increasePrecision 8).WF := Sem.increasePrecision_WF hF 8
+                  have hc := cast_canonical x _ hW hx
+                  have he := expFuel_canonical _ _ _ (by rw [hc.2]; exact hW) hc.1 hex
+                  rw [he.2, hc.2]; exact hW)).1
 
 /-! ### `pow` -/
 
